@@ -103,4 +103,137 @@ theorem next_writes (d : SeqDesc) (dl : Nat) (w : World) (c : ConnSt) (st : SeqS
        | .done => S = []) :=
   seqNext_writes d dl w c st hl
 
+/-- the state after a `next()` that started the exchange or continued it is never `start` again. -/
+theorem never_back_to_start (d : SeqDesc) (dl : Nat) (w : World) (c : ConnSt) (st : SeqSt) (h : st ≠ .start) :
+    (seqNext d dl w c st).2.2.2 ≠ .start := by
+  have := next_state d dl w c st
+  generalize seqNext d dl w c st = q at this ⊢
+  obtain ⟨o, w1, c1, st1⟩ := q
+  simp only at this ⊢
+  cases o with
+  | hang => rw [this]; simp
+  | ended => rw [this]; simp
+  | item it =>
+    cases it with
+    | err => rw [this]; simp
+    | ok i v => rw [this]; split <;> simp
+
+theorem start_leaves_start (d : SeqDesc) (dl : Nat) (w : World) (c : ConnSt) :
+    (seqNext d dl w c .start).2.2.2 ≠ .start := by
+  have := next_state d dl w c .start
+  generalize seqNext d dl w c .start = q at this ⊢
+  obtain ⟨o, w1, c1, st1⟩ := q
+  simp only at this ⊢
+  cases o with
+  | hang => rw [this]; simp
+  | ended => rw [this]; simp
+  | item it =>
+    cases it with
+    | err => rw [this]; simp
+    | ok i v => rw [this]; split <;> simp
+
+/-- the writes of a run of `next()` calls that does not start the exchange: acknowledgements only. -/
+theorem continued_attempt_writes {σ ρ : Type} (d : SeqDesc) (timeout : Nat) (step : σ → Item → Step σ ρ) :
+    ∀ (fuel : Nat) (w : World) (c : ConnSt) (st : SeqSt) (s : σ), st ≠ .start → c.id < w.logs.length →
+      ∃ k, (runItems d timeout step fuel w c st s).2.1.sentOn c.id = w.sentOn c.id ++ List.replicate k ackBytes := by
+  intro fuel
+  induction fuel with
+  | zero => intro w c st s _ _; exact ⟨0, by simp only [runItems, List.replicate_zero, List.append_nil]; rfl⟩
+  | succ fuel ih =>
+    intro w c st s hst hl
+    simp only [runItems]
+    obtain ⟨S, hS, hshape⟩ := seqNext_writes d (w.now + timeout) w c st hl
+    have hfr := seqNext_frame d (w.now + timeout) w c st
+    have hnb := never_back_to_start d (w.now + timeout) w c st hst
+    have hS' : S = [] ∨ S = [ackBytes] := by
+      cases st with
+      | start => exact absurd rfl hst
+      | looping => rcases hshape with ⟨_, h⟩ | ⟨_, h⟩ <;> simp [h]
+      | done => exact Or.inl hshape
+    generalize seqNext d (w.now + timeout) w c st = q at hS hfr hnb ⊢
+    obtain ⟨o, w1, c1, st1⟩ := q
+    simp only at hS hfr hnb
+    have hk1 : ∃ k1, w1.sentOn c.id = w.sentOn c.id ++ List.replicate k1 ackBytes := by
+      rcases hS' with h | h
+      · exact ⟨0, by rw [hS, h]; simp⟩
+      · exact ⟨1, by rw [hS, h]; rfl⟩
+    obtain ⟨k1, hk1⟩ := hk1
+    cases o with
+    | ended => exact ⟨k1, hk1⟩
+    | hang => exact ⟨k1, by simp only; rw [← hfr.id, dropConn_sentOn, hfr.id]; exact hk1⟩
+    | item it =>
+      cases it with
+      | err =>
+        simp only
+        cases step s .err with
+        | ret r => exact ⟨k1, hk1⟩
+        | cont s' => exact ⟨k1, by simp only; rw [← hfr.id, dropConn_sentOn, hfr.id]; exact hk1⟩
+      | ok i v =>
+        simp only
+        cases step s (.ok i v) with
+        | ret r => exact ⟨k1, hk1⟩
+        | cont s' =>
+          simp only
+          obtain ⟨k2, hk2⟩ := ih w1 c1 st1 s' hnb (by rw [hfr.id, hfr.nlogs]; exact hl)
+          rw [hfr.id] at hk2
+          exact ⟨k1 + k2, by rw [hk2, hk1, List.append_assoc, List.replicate_append_replicate]⟩
+
+/-- **C05 at the client, one attempt**: on its connection an attempt writes the command at most once — as the very first
+thing — and after it nothing but acknowledgements (one per packet it handed to the caller, `next_writes`). -/
+theorem attempt_writes {σ ρ : Type} (d : SeqDesc) (timeout : Nat) (step : σ → Item → Step σ ρ)
+    (fuel : Nat) (w : World) (c : ConnSt) (s : σ) (hl : c.id < w.logs.length) :
+    (runItems d timeout step fuel w c .start s).2.1.sentOn c.id = w.sentOn c.id ∨
+    ∃ k, (runItems d timeout step fuel w c .start s).2.1.sentOn c.id = w.sentOn c.id ++ d.cmd :: List.replicate k ackBytes := by
+  cases fuel with
+  | zero => left; simp only [runItems]; rfl
+  | succ fuel =>
+    simp only [runItems]
+    obtain ⟨S, hS, hshape⟩ := seqNext_writes d (w.now + timeout) w c .start hl
+    have hfr := seqNext_frame d (w.now + timeout) w c .start
+    have hnb := start_leaves_start d (w.now + timeout) w c
+    simp only at hshape
+    generalize seqNext d (w.now + timeout) w c .start = q at hS hfr hnb hshape ⊢
+    obtain ⟨o, w1, c1, st1⟩ := q
+    simp only at hS hfr hnb hshape
+    -- what the first call wrote: nothing, the command, or the command and one acknowledgement
+    have h3 : S = [] ∨ S = [d.cmd] ∨ S = [d.cmd, ackBytes] := by
+      rcases hshape with ⟨_, h⟩ | ⟨_, h | h⟩
+      · exact Or.inr (Or.inr h)
+      · exact Or.inl h
+      · exact Or.inr (Or.inl h)
+    have fin : ∀ (wf : World), wf.sentOn c.id = w1.sentOn c.id →
+        wf.sentOn c.id = w.sentOn c.id ∨ ∃ k, wf.sentOn c.id = w.sentOn c.id ++ d.cmd :: List.replicate k ackBytes := by
+      intro wf hwf
+      rw [hwf, hS]
+      rcases h3 with h | h | h
+      · left; rw [h]; simp
+      · right; exact ⟨0, by rw [h]; rfl⟩
+      · right; exact ⟨1, by rw [h]; rfl⟩
+    cases o with
+    | ended => exact fin _ rfl
+    | hang => exact fin _ (by rw [← hfr.id, dropConn_sentOn]; rfl)
+    | item it =>
+      cases it with
+      | err =>
+        simp only
+        cases step s .err with
+        | ret r => exact fin _ rfl
+        | cont s' => exact fin _ (by rw [← hfr.id, dropConn_sentOn])
+      | ok i v =>
+        simp only
+        have hok : S = [d.cmd, ackBytes] := by
+          rcases hshape with ⟨_, h⟩ | ⟨h, _⟩
+          · exact h
+          · simp [NextOut.isOk] at h
+        cases step s (.ok i v) with
+        | ret r => exact fin _ rfl
+        | cont s' =>
+          simp only
+          obtain ⟨k2, hk2⟩ := continued_attempt_writes d timeout step fuel w1 c1 st1 s' hnb (by rw [hfr.id, hfr.nlogs]; exact hl)
+          rw [hfr.id] at hk2
+          right
+          refine ⟨1 + k2, ?_⟩
+          rw [hk2, hS, hok, ← List.replicate_append_replicate]
+          simp
+
 end Zvt.C06C
